@@ -9,7 +9,8 @@ open Morfuse.Gen.EmitConsts
 /-- what `Preallocate` leaves of the fresh emitter / program manager state -/
 def Fresh (L : Nat) (s : St) : Prop :=
   s.counting = false ∧ s.prev = (St.init false).prev ∧ s.prevPos = 0 ∧ s.gross = 0 ∧ s.pos = 0 ∧ s.progLen = L ∧
-  s.nBrk = 0 ∧ s.nCont = 0 ∧ s.canBreak = false ∧ s.canContinue = false ∧ s.switchDepth = 0
+  s.nBrk = 0 ∧ s.nCont = 0 ∧ s.canBreak = false ∧ s.canContinue = false ∧ s.switchDepth = 0 ∧
+  s.ring = (St.init false).ring ∧ s.ringCur = 0 ∧ s.buf.data.size = L
 
 theorem alloc_fresh {L : Nat} (s : St) (n : Nat) (h : Fresh L s) : wp (s.alloc n) (Fresh L) ECO := by
   unfold St.alloc
@@ -31,17 +32,18 @@ theorem preallocate_fresh (dev : Bool) (i : SizeInfo) : wp (preallocate dev i) (
   repeat' (first
     | (wp_simp; with_reducible refine wp_mono (alloc_fresh (L := i.progLength) _ _ ?_) (fun _ _ => ?_) (fun _ h => h))
     | (wp_simp; with_reducible refine wp_mono (resize_fresh (L := i.progLength) _ _ _ ?_) (fun _ _ => ?_) (fun _ h => h))
-    | ((with_reducible show Fresh _ _); first | assumption | (simp [Fresh, St.init]; done) | (simp only [Fresh] at *; first | assumption | simp_all [St.init]))
+    | ((with_reducible show Fresh _ _); first | assumption | (simp [Fresh, St.init, Tbl.mk']; done) | (simp only [Fresh] at *; first | assumption | simp_all [St.init]))
     | (wp_simp; with_reducible show True; trivial)
     | (wp_simp; split))
 
 theorem tested_init : tested (255 : Nat) = false := by decide
 
 theorem W_fresh {L : Nat} (s : St) (h : Fresh L s) : W (St.init true) s := by
-  obtain ⟨_, hprev, hpos, _⟩ := h
+  obtain ⟨_, hprev, hpos, _, _, hlen, _, _, _, _, _, hring, hcur, hbuf⟩ := h
   have hc : WOk (St.init true) := ⟨by simp [St.init, Tbl.mk', prevMax_eq], by simp [St.init]⟩
   have hp : WOk s := ⟨by rw [hprev]; simp [St.init, Tbl.mk', prevMax_eq], by omega⟩
-  refine W.of_untested hc hp ?_ ?_
+  refine W.of_untested hc hp ⟨by simp [St.init, Tbl.mk', ringSize_eq], by simp [St.init], by simp [St.init, Tbl.mk']⟩
+    ⟨by rw [hring]; simp [St.init, Tbl.mk', ringSize_eq], by omega, by rw [hbuf, hlen]⟩ ?_ ?_
   · simp [ent, St.init, Tbl.mk', Tbl.get, prevMax_eq]; exact tested_init
   · simp [ent, hprev, hpos, St.init, Tbl.mk', Tbl.get, prevMax_eq]; exact tested_init
 
@@ -54,7 +56,7 @@ theorem plain_code_fits (dev : Bool) (root : Node) (hpl : root.plain = true) (c 
   intro s hs
   have hrel : Rel c.info.progLength (St.init true) s := by
     have hw := W_fresh s hs
-    obtain ⟨h1, _, _, h4, h5, h6, h7, h8, h9, h10, h11⟩ := hs
+    obtain ⟨h1, _, _, h4, h5, h6, h7, h8, h9, h10, h11, _⟩ := hs
     exact ⟨rfl, h1, hw, by simp [pl, St.init, h4], by omega, h6, by simp [St.init, h7], by simp [St.init, h8],
       by simp [St.init, h9], by simp [St.init, h10], by simp [St.init, h11]⟩
   have hj : J c.info.progLength (emitRoot root (St.init true)) (emitRoot root s) (Rel c.info.progLength) := by
